@@ -484,8 +484,11 @@ def run_bypass_sites(chk: Check, ix) -> None:
                 for k in c.keywords:
                     if k.arg == "code" and norm(k.value).startswith("codes."):
                         gens[f.name] = norm(k.value)
+    if not gens:
+        raise AnalysisError("no Errors method reports through report_simple_error with a code")
     if len(gens) < 2:
-        raise AnalysisError(f"generators reporting through report_simple_error: {gens}")
+        # R13.7 reports a generator that stopped using report_simple_error; this rule covers the ones left
+        r9.info(f"only {sorted(gens)} report through report_simple_error", "mypy/errors.py", "see R13.7")
     n_sites = 0
     for f in sorted(ix.functions.values(), key=lambda f: f.qualname):
         if f.module.name.startswith("mypy.test") or (f.cls is not None and f.cls.qualname == "mypy.errors.Errors"):
@@ -542,5 +545,5 @@ def run_bypass_sites(chk: Check, ix) -> None:
                 r9.ok(key2, f.loc(c))
             else:
                 r9.violation(key2, f.loc(c), f"the guard `{norm(cond)[:140]}` is false even with {code} explicitly enabled and every other atom true")
-    if n_sites < 2:
+    if n_sites < len(gens):
         raise AnalysisError(f"only {n_sites} call sites of {sorted(gens)} found")
